@@ -64,12 +64,15 @@ def index_def(fn, e, at):
     return e
 
 
+# the array attributes of the update classes; the rules below speak of them by these names whether update() reads them directly or through a local of any name
+ARRAY_ATTRS = ('inlet_pa', 'dest_pa', 'ghost_pa', 'source_pa', 'outlet_pa')
 KEEP_UPD = ('__init__', 'initialize', 'update', '_init', 'callback', '_create_io_eval')
 
 
 def upd_of(cls):
     """the update method of an inlet / outlet class with the private helpers it was split into inlined again"""
     ic = M.inlined_class(cls, keep=set(KEEP_UPD) | set(n_ for n_ in M.methods(cls) if not n_.startswith('_')))
+    ic = M.self_aliases_inlined_deep(ic, back_to_names=ARRAY_ATTRS)
     return M.methods(ic).get('update')
 
 
@@ -423,8 +426,8 @@ def rule_zone_codes(chk):
         want = ['self.inlet_pa', 'self.dest_pa'] if cname == 'InletBase' else ['self.outlet_pa', 'self.source_pa']
         chk.decide(flat == want, 'zone-codes', '%s:arrays' % cname, node=f, file=IOM, func=cname + '._create_io_eval',
                    detail_bad='evaluator built over %s' % flat, detail_ok=str(want))
-        init = M.find_func(c, 'initialize')
-        info = 'inletinfo' if cname == 'InletBase' else 'outletinfo'
+        init = M.self_aliases_inlined_deep(M.find_func(c, 'initialize'))          # `info = self.inletinfo; self.x = info.refpoint[0]` is `self.x = self.inletinfo.refpoint[0]`
+        info = 'self.inletinfo' if cname == 'InletBase' else 'self.outletinfo'
         dd = dict((compact(a.targets[0]), compact(a.value)) for a in ast.walk(init) if isinstance(a, ast.Assign))
         ok = all(dd.get('self.' + k) == '%s.refpoint[%d]' % (info, i) for i, k in enumerate('xyz')) and \
             all(dd.get('self.' + k + 'n') == '%s.normal[%d]' % (info, i) for i, k in enumerate('xyz')) and dd.get('self.length') == info + '.length'
@@ -441,16 +444,36 @@ def rule_families(chk, ci):
     for c in M.calls(gio):
         nm = M.call_name(c) or ''
         if nm.endswith('.update_cls'):
-            kind = nm.split('.')[0]
+            # which loops the call sits in: `for X in self.inletinfo / self.outletinfo` gives the kind and the info object, `for F in self.fluids` the fluid name (any names)
+            loops = {}
+            p_ = getattr(c, 'parent', None)
+            outer = None
+            while p_ is not None and p_ is not gio:
+                if isinstance(p_, ast.For) and isinstance(p_.target, ast.Name):
+                    loops[compact(p_.iter)] = p_.target.id
+                    if compact(p_.iter) in ('self.inletinfo', 'self.outletinfo'):
+                        outer = p_
+                p_ = getattr(p_, 'parent', None)
+            recv = nm.rsplit('.', 1)[0]
+            kind = 'inlet' if loops.get('self.inletinfo') == recv else 'outlet' if loops.get('self.outletinfo') == recv else None
+            if kind is None or outer is None:
+                chk.violated('families-route-through-bases', 'manager:%s-construction' % recv, node=c, file=IOM, func='InletOutletManager.get_inlet_outlet',
+                             detail='update_cls is called on %s, which is not the loop variable of a loop over self.inletinfo / self.outletinfo' % recv)
+                continue
             params = M.arg_names(ib if kind == 'inlet' else ob)[1:]
-            got = [compact(a) for a in c.args]
-            name = 'i_name' if kind == 'inlet' else 'o_name'
-            want = ['particle_array[%s]' % name, 'particle_array[fluid]', kind, 'self.kernel', 'self.dim', 'self.active_stages']
-            kws = dict((k.arg, compact(k.value)) for k in c.keywords)
+            pa_param = (M.arg_names(gio) + [None, None])[1]
+            ldf = local_defs(outer.body)          # the locals of this loop body (the two loops may use the same names for different things)
+            got = [compact(inline(a_, ldf)) for a_ in c.args]
+            fl = loops.get('self.fluids')
+            want = ['%s[%s.pa_name]' % (pa_param, recv), '%s[%s]' % (pa_param, fl), recv, 'self.kernel', 'self.dim', 'self.active_stages']
+            kws = dict((k.arg, compact(inline(k.value, ldf))) for k in c.keywords)
+            own, other = ('self.inlet_pairs', 'self.outlet_pairs') if kind == 'inlet' else ('self.outlet_pairs', 'self.inlet_pairs')
+            gh = kws.get('ghost_pa') or ''
             ok = got == want and params[:6] == [('inlet_pa' if kind == 'inlet' else 'outlet_pa'), ('dest_pa' if kind == 'inlet' else 'source_pa'),
-                                                kind + 'info', 'kernel', 'dim', 'active_stages'] and kws == {'ghost_pa': 'ghost_pa'}
+                                                kind + 'info', 'kernel', 'dim', 'active_stages'] and sorted(kws) == ['ghost_pa'] and own in gh and other not in gh
             chk.decide(ok, 'families-route-through-bases', 'manager:%s-construction' % kind, node=c, file=IOM, func='InletOutletManager.get_inlet_outlet',
-                       detail_bad='update class constructed with %s %s against parameters %s' % (got, kws, params), detail_ok='(zone array, fluid, info, kernel, dim, stages, ghost_pa=)')
+                       detail_bad='update class constructed with %s %s (expected %s and a ghost array looked up in %s) against parameters %s' % (got, kws, want, own, params),
+                       detail_ok='(zone array, fluid, info, kernel, dim, stages, ghost_pa= from %s)' % own)
     n = 0
     for fam in FAMILIES:
         rel = 'pysph/sph/bc/%s/simple_inlet_outlet.py' % fam
@@ -488,16 +511,19 @@ def rule_zone_length(chk):
     t = M.py(IOM)
     mgr = M.find_class(t, 'InletOutletManager')
     fn = M.inline_helpers(mgr, M.find_func(mgr, '_update_inlet_outlet_info'), keep=set(n_ for n_ in M.methods(mgr) if not n_.startswith('_')))      # private helpers and local closures (`_extent(coords, dx)`) written in place
-    st = [a for a in ast.walk(fn) if isinstance(a, ast.Assign) and compact(a.targets[0]) == 'info.length']
-    ok = len(st) == 1
+    # the info object is whatever the loop over the infos calls it, the array is the method's parameter
+    st = [a for a in ast.walk(fn) if isinstance(a, ast.Assign) and isinstance(a.targets[0], ast.Attribute) and a.targets[0].attr == 'length' and isinstance(a.targets[0].value, ast.Name)]
+    ok = len(st) == 1 and len(M.arg_names(fn)) > 1
     if ok:
         from verif_static import paths as PT
+        iv, pv = st[0].targets[0].value.id, M.arg_names(fn)[1]
         want = 'abs((max(pa.x)-min(pa.x)+info.dx)*info.normal[0] + (max(pa.y)-min(pa.y)+info.dx)*info.normal[1] + (max(pa.z)-min(pa.z)+info.dx)*info.normal[2])'
+        want = want.replace('info.', iv + '.').replace('pa.', pv + '.')
         # per path, with the locals standing for what they hold at that point (a temporary re-used for x, y and z in turn is three different things)
         gots = []
         for p_ in PT.enumerate_paths(M.docstring_stripped(fn.body)):
             for e in p_:
-                if e.kind == 'stmt' and e.node is st[0] or (e.kind == 'stmt' and isinstance(e.node, ast.Assign) and compact(e.node.targets[0]) == 'info.length'):
+                if e.kind == 'stmt' and e.node is st[0] or (e.kind == 'stmt' and isinstance(e.node, ast.Assign) and compact(e.node.targets[0]) == iv + '.length'):
                     gots.append(PT.resolve(e.node.value, e.env))
         ok = bool(gots) and all(canon(g_) == canon(want) for g_ in gots)
         got = gots[0] if gots else st[0].value
@@ -635,8 +661,10 @@ def rule_activation(chk):
             if gs is None:
                 continue
             g = C.build_cfg(gs)
+            # the steppers handed out: stores into the dictionary the method returns (whatever it is called)
+            ret = set(r_.value.id for r_ in ast.walk(gs) if isinstance(r_, ast.Return) and isinstance(r_.value, ast.Name))
             stores = [x.id for x in g.nodes if x.ast is not None and isinstance(x.ast, ast.Assign) and isinstance(x.ast.targets[0], ast.Subscript)
-                      and compact(x.ast.targets[0].value) == 'steppers']
+                      and compact(x.ast.targets[0].value) in ret]
             act = [x.id for x in g.nodes if x.ast is not None and isinstance(x.ast, ast.Assign) and compact(x.ast.targets[0]) == 'self.active_stages'
                    and isinstance(x.ast.value, (ast.List, ast.Tuple)) and x.ast.value.elts]
             n += 1
